@@ -143,6 +143,7 @@ type Sched struct {
 	AllowCrash bool  // enable crash choices
 	AllowCancel bool // enable cancellation of a request's context (at most MaxCancels times)
 	AllowFailCtx bool // enable a store failure whose error wraps context.Canceled
+	ReadFail  map[string]bool // kinds of store read that fail with a transient error (see Store.ReadFail)
 	Crashes   int
 	MaxCrashes int
 	Cancels   int
